@@ -1,1 +1,39 @@
-From Verif Require Import Base Tie.
+(* C17 -- matrix containers are internally consistent (the part that is logic: slices). *)
+From Verif Require Import Base Coding Contrasts Frame Eval Design DesignStructure DesignCoding.
+From Verif Require Tie.
+Local Close Scope Qc_scope.
+Local Close Scope Q_scope.
+
+(* slices computed from the term widths start at 0, follow the term order, are contiguous and
+   end at the total width *)
+Theorem C17_slices_contiguous :
+  forall names widths,
+    List.length names = List.length widths ->
+    contiguous 0 (slices_of names widths) (list_sum widths) /\
+    map (fun sl => fst (fst sl)) (slices_of names widths) = names /\
+    map (fun sl => snd sl - snd (fst sl)) (slices_of names widths) = widths.
+Proof. exact slices_contiguous. Qed.
+
+(* the same for the object returned by evaluate_new_data on the group matrix, whatever new
+   groups widened it *)
+Theorem C17_new_group_slices :
+  forall cx mode ds data ng,
+    new_group cx mode ds data = Ok ng ->
+    exists widths,
+      List.length widths = List.length (ds_group ds) /\
+      contiguous 0 (ng_slices ng) (list_sum widths) /\
+      map (fun sl => fst (fst sl)) (ng_slices ng) = map dg_name (ds_group ds) /\
+      map (fun sl => snd sl - snd (fst sl)) (ng_slices ng) = widths.
+Proof. exact new_group_slices_contiguous. Qed.
+
+(* stacking blocks: the matrix is as wide as the sum of the block widths, every row included *)
+Theorem C17_hstack_width :
+  forall blocks n,
+    Forall (fun b => List.length b = n) blocks -> Forall regular blocks ->
+    Forall (fun r => List.length r = list_sum (map width blocks)) (hstack blocks n) /\
+    width (hstack blocks n) = list_sum (map width blocks).
+Proof. exact hstack_width. Qed.
+
+Print Assumptions C17_slices_contiguous.
+Print Assumptions C17_new_group_slices.
+Print Assumptions C17_hstack_width.
